@@ -155,17 +155,17 @@ theorem recognise_secure (db : Db) (now : Int) (h : Str) (u : User)
   | missing => rw [hl] at hr; cases hr
   | duplicate => rw [hl] at hr; cases hr
 
-/-- **No literal overlap after an accepted `setUser`**: when `setUser(u)` succeeds, the record `w`
-it stores under `u.id` (the stored object itself when the caller modified it in place) has no
-mask that matches, as a pattern, a mask of another stored user read as a string, and no other
-user's `checkHostmask` accepts a mask of `w` read as a hostmask (pattern match, or a live login
-equal to it up to IRC case).  This is what the code checks — *not* that the masks have no common
-instance: see `semantic_overlap_accepted`. -/
+/-- **No overlap after an accepted `setUser`**: when `setUser(u)` succeeds, the record `w` it
+stores under `u.id` (the stored object itself when the caller modified it in place) has no mask
+that matches, as a pattern, a mask of another stored user read as a string, none for which
+`hostmaskPatternsIntersect` finds a common hostmask with a mask of another user (so, by
+`intersect_complete`, none that shares a hostmask with it: `setUser_no_common_instance`), and no
+other user's `checkHostmask` accepts a mask of `w` read as a hostmask. -/
 theorem setUser_no_literal_overlap (st : St) (u : User) (live : Bool)
     (h : (setUser st u live).2 = .ok ()) :
     ∃ w ∈ (setUser st u live).1.db.users, w.id = u.id ∧
       ∀ hm ∈ w.hostmasks, ∀ v ∈ (setUser st u live).1.db.users, v.id ≠ u.id →
-        (∀ o ∈ v.hostmasks, glob hm o = false) ∧
+        (∀ o ∈ v.hostmasks, glob hm o = false ∧ intersect hm o = false) ∧
         maskHitsUser v (setUser st u live).1.db.timeout (setUser st u live).1.now hm = false := by
   obtain ⟨r, hr, hov⟩ := setUser_ok_spec h
   have hwid : (finalRecord r u live).id = u.id := by
@@ -197,9 +197,22 @@ theorem setUser_no_literal_overlap (st : St) (u : User) (live : Bool)
   intro o ho
   simpa using this o ho
 
-/-! ## Known finding: masks with a common instance are accepted
-The property's "two accounts can never own overlapping masks" is FALSE on this tree in the
-semantic sense (∃ hostmask matched by masks of two accounts): -/
+/-- **Two accounts never come to own masks with a hostmask in common through `setUser`**: after
+an accepted `setUser(u)`, no hostmask (without LF) is matched by a mask of the stored record of
+`u.id` and by a mask of another account. -/
+theorem setUser_no_common_instance (st : St) (u : User) (live : Bool)
+    (h : (setUser st u live).2 = .ok ()) :
+    ∃ w ∈ (setUser st u live).1.db.users, w.id = u.id ∧
+      ∀ hm ∈ w.hostmasks, ∀ v ∈ (setUser st u live).1.db.users, v.id ≠ u.id → ∀ o ∈ v.hostmasks,
+        ∀ s, '\n' ∉ s → ¬ (glob hm s = true ∧ glob o s = true) := by
+  obtain ⟨w, hw, hid, hall⟩ := setUser_no_literal_overlap st u live h
+  refine ⟨w, hw, hid, ?_⟩
+  intro hm hhm v hv hne o ho s hs ⟨h1, h2⟩
+  have := ((hall hm hhm v hv hne).1 o ho).2
+  rw [intersect_complete hs h1 h2] at this
+  cases this
+
+/-! ## The design-time finding "masks with a common instance are accepted", after its repair -/
 
 def annMask : Str := ['a', 'n', 'n', '*', '!', '*', '@', '*']
 def beaMask : Str := ['*', 'b', 'e', 'a', '!', '*', '@', '*']
@@ -207,13 +220,13 @@ def abHost : Str := ['a', 'n', 'n', 'b', 'e', 'a', '!', 'x', '@', 'y']
 def overlapHistory : List Op :=
   [.register ['a', 'n', 'n'] (some annMask), .register ['b', 'e', 'a'] (some beaMask)]
 
-/-- both registrations are accepted although `annbea!x@y` is an instance of both masks; that sender
-is then refused with DuplicateHostmask and both masks are deleted -/
-theorem semantic_overlap_accepted :
-    (run {} overlapHistory).db.users.map (fun u => (u.id, u.hostmasks)) = [(1, [annMask]), (2, [beaMask])] ∧
-    glob annMask abHost = true ∧ glob beaMask abHost = true ∧
-    (step (run {} overlapHistory) (.lookup abHost)).2 = .err .value ∧
-    (step (run {} overlapHistory) (.lookup abHost)).1.db.users.map (fun u => u.hostmasks) = [[], []] := by
+/-- `annbea!x@y` is an instance of both masks; the second registration is now refused (and rolled
+back), and that sender resolves to the first account -/
+theorem semantic_overlap_refused :
+    glob annMask abHost = true ∧ glob beaMask abHost = true ∧ intersect annMask beaMask = true ∧
+    (step (run {} [.register ['a', 'n', 'n'] (some annMask)]) (.register ['b', 'e', 'a'] (some beaMask))).2 = .err .value ∧
+    (run {} overlapHistory).db.users.map (fun u => (u.id, u.hostmasks)) = [(1, [annMask])] ∧
+    (step (run {} overlapHistory) (.lookup abHost)).2 = .id 1 := by
   decide
 
 /-- **The tolerant step of the model is never taken**: in every reachable state each cached
